@@ -13,6 +13,10 @@ def openMachine (args : List String) (hin hout : IO.FS.Stream) : Option (IO Bool
   | ["pipevalid"] => some (serve (numElem (pipeValid zTok)) hin hout)
   | ["afifo_rst", k] => k.toNat?.map fun k => serve (numAFifoR k false) hin hout
   | ["afifo_rst_buffered", k] => k.toNat?.map fun k => serve (numAFifoR k true) hin hout
+  | ["afifo_rst2", k] => k.toNat?.map fun k => serve (numAFifoR2 k false) hin hout
+  | ["afifo_rst2_buffered", k] => k.toNat?.map fun k => serve (numAFifoR2 k true) hin hout
+  | ["cdc_sync", k] => k.toNat?.map fun k => serve (numCdcSync k false) hin hout
+  | ["cdc_sync_buffered", k] => k.toNat?.map fun k => serve (numCdcSync k true) hin hout
   | ["bussync", w, t] => match w.toNat?, t.toNat? with
     | some w, some t => some (serve (numBusSync w t) hin hout)
     | _, _ => none
@@ -32,7 +36,8 @@ def openMachine (args : List String) (hin hout : IO.FS.Stream) : Option (IO Bool
     (cfg.mapM parse).map fun c => serve (numAFifoMulti c) hin hout
   | _ => none
 
-/-- `call ps_tight <R>` → the tight pulse-spacing witness schedule `psTight R` as `ti to m i;…`,
+/-- `call per_clocks <pi> <po> <ni> <no> <n>` → the first `n` instants of two periodic clocks as `ti to;…`,
+    `call ps_tight <R>` → the tight pulse-spacing witness schedule `psTight R` as `ti to m i;…`,
     `call afifo_ctor <depth | none> <buffered 0/1>` → `refused` | `built <depth_bits> <storage words> <capacity>`,
     `call cdc_kind <cd_from> <cd_to> <log2 depth | none> <buffered 0/1>`,
     `call uart_fifo_kind <depth> <sink_cd> <source_cd>`, `call uart_tx <depth> <phy_cd>`, `call uart_rx <depth> <phy_cd>`. -/
@@ -44,6 +49,10 @@ def call (args : List String) : Option String :=
   | ["afifo_ctor", d, buf] =>
     let dl : Option (Option Nat) := if d == "none" then some none else d.toNat?.map some
     dl.map fun dl => showCtor dl (buf == "1")
+  | ["per_clocks", pi, po, ni, no, n] => match pi.toNat?, po.toNat?, ni.toNat?, no.toNat?, n.toNat? with
+    | some pi, some po, some ni, some no, some n =>
+      some (String.intercalate ";" ((perClocks pi po n ni no).map fun c => s!"{b2n c.1} {b2n c.2}"))
+    | _, _, _, _, _ => none
   | ["ps_tight", r] => r.toNat?.map fun r =>
     String.intercalate ";" ((psTight r).map fun x => s!"{b2n x.ti} {b2n x.tO} {b2n x.m} {b2n x.i}")
   | ["uart_fifo_kind", d, a, b] => d.toNat?.map fun d => (uartFifoKind d a b).show
